@@ -87,6 +87,26 @@ func (g *Gen) trBool(e Expr, env *Env) (term string, err error) {
 	return v.T, nil
 }
 
+// sealed: a named struct type of another package none of whose fields is exported (time.Time): the
+// package under verification can only copy and compare it as a whole, so its values are modelled as
+// opaque values kept in the array S!<type> (indexed by the address of the struct).
+func (g *Gen) sealed(t types.Type) (string, bool) {
+	n, ok := t.(*types.Named)
+	if !ok || n.Obj().Pkg() == nil || n.Obj().Pkg() == g.W.tpkg {
+		return "", false
+	}
+	st, ok := n.Underlying().(*types.Struct)
+	if !ok || st.NumFields() == 0 {
+		return "", false
+	}
+	for i := 0; i < st.NumFields(); i++ {
+		if st.Field(i).Exported() {
+			return "", false
+		}
+	}
+	return "S!" + g.W.typeName(t), true
+}
+
 func (g *Gen) structOf(t types.Type) (*types.Struct, types.Type) {
 	if p, ok := t.Underlying().(*types.Pointer); ok {
 		t = p.Elem()
@@ -155,7 +175,12 @@ func (g *Gen) selectField(h *Heap, base Val, name string) Val {
 	if _, isStruct := fty.Underlying().(*types.Struct); isStruct && strings.HasPrefix(arr, "F!") {
 		// nested struct by value: addressed through a derived reference (as FieldAddr does)
 		_, bt := g.structOf(base.Ty)
-		return Val{T: fmt.Sprintf("(fref %s %d)", idx, g.fieldID(g.W.typeName(bt), name)), Ty: fty}
+		ref := fmt.Sprintf("(fref %s %d)", idx, g.fieldID(g.W.typeName(bt), name))
+		if sn, ok := g.sealed(fty); ok {
+			// a struct of another package without exported fields: a value as a whole
+			return Val{T: fmt.Sprintf("(select %s %s)", g.arr(h, sn, "Opq"), ref), Ty: fty, Loc: &Loc{Arr: sn, Sort: "Opq", Idx: ref, Ty: fty}}
+		}
+		return Val{T: ref, Ty: fty}
 	}
 	s := sortOf(fty)
 	term := fmt.Sprintf("(select %s %s)", g.arr(h, arr, s), idx)
@@ -813,6 +838,17 @@ func (g *Gen) trCall(x ECall, env *Env) Val {
 		return Val{T: fmt.Sprintf("(and (not (= %[2]s 0)) (select (select %[1]s %[2]s) %[3]s))", g.arr(env.heap, has, "(Array "+ks+" Bool)"), m.T, k.T), Ty: tyBool}
 	case "alloc":
 		return Val{T: fmt.Sprintf("(select %s %s)", g.arr(env.heap, "alloc", "Bool"), arg(0).T), Ty: tyBool}
+	case "zeroof":
+		// the zero value of a type
+		ts, ok := x.Args[0].(EStr)
+		if !ok {
+			trFail("zeroof needs a string type name")
+		}
+		t, err := g.W.parseType(ts.V)
+		if err != nil {
+			trFail("%v", err)
+		}
+		return Val{T: g.zeroOf(t), Ty: t}
 	case "wasalloc":
 		h := env.old
 		if h == nil {
@@ -829,6 +865,14 @@ func (g *Gen) trCall(x ECall, env *Env) Val {
 	case "deref":
 		// content of a pointer-valued cell (pointer to a local variable holding a reference)
 		v := arg(0)
+		if pt, ok := v.Ty.Underlying().(*types.Pointer); ok {
+			if _, isStruct := pt.Elem().Underlying().(*types.Struct); !isStruct {
+				s := sortOf(pt.Elem())
+				name := "C!" + sortTag(s)
+				return Val{T: fmt.Sprintf("(select %s %s)", g.arr(env.heap, name, s), v.T), Ty: pt.Elem(),
+					Loc: &Loc{Arr: name, Sort: s, Idx: v.T, Ty: pt.Elem()}}
+			}
+		}
 		return Val{T: fmt.Sprintf("(select %s %s)", g.arr(env.heap, "C!Int", "Int"), v.T), Ty: tyRef,
 			Loc: &Loc{Arr: "C!Int", Sort: "Int", Idx: v.T, Ty: tyRef}}
 	case "fmtline":
